@@ -782,6 +782,26 @@ func (env *SpecEnv) call(e *SExpr) SVal {
 			}
 			// no such call on this path: comparisons with this value are false
 			return SVal{NoCall: true}
+		case "calledBefore":
+			// a definite call of the first name precedes every possible call of the second
+			a, b := args[0].Val, args[1].Val
+			match := func(ev Event, name string) bool {
+				return ev.Name == name || strings.HasSuffix(ev.Name, "."+name) || strings.HasSuffix(ev.Name, ")."+name)
+			}
+			first := -1
+			for i, ev := range env.st.events {
+				if !ev.Maybe && match(ev, a) {
+					first = i
+					break
+				}
+			}
+			ok := first >= 0
+			for i, ev := range env.st.events {
+				if match(ev, b) && i < first {
+					ok = false
+				}
+			}
+			return SVal{T: BoolLit(ok), Typ: types.Typ[types.Bool]}
 		case "mayHaveCalled":
 			// true unless no call of that name can have happened on this path (loops included)
 			name := args[0].Val
